@@ -113,6 +113,11 @@ func (f *FnEnc) callStatic(x ssa.Value, fn *ssa.Function, args []Val, argVs []ss
 	if fn.Signature.Recv() != nil && len(args) > 0 {
 		env["self"] = args[0].T
 	}
+	for i, p := range fn.Params {
+		if i < len(args) && hasTag(ct.BoxPtr, p.Name()) {
+			f.oblige("pre", name+".boxptr."+p.Name(), ct.Tags, fmt.Sprintf("(> %s 0)", args[i].T), "")
+		}
+	}
 	res := f.applyContract(ct, name, env, fn.Signature.Results(), fn)
 	f.setResults(x, res, fn.Signature.Results())
 }
